@@ -63,3 +63,10 @@ Example C14_nonvacuous :
   expired_seq FNone 0 (Span 3600000000) [1000000; 3599000000; 7203000000; 5] =
   [EOk false; EOk false; EOk true; EOk true].
 Proof. vm_compute. reflexivity. Qed.
+
+(* the deferred deletion of an expired message removes THAT message and nothing else: whatever an entity holds for the same code
+   (a sibling zone's fresher reading, the controller's copy) or for any other code stays, and nothing appears *)
+Theorem C14_delete_only_that_message : forall st m k m', sget st k = Some m' -> smsg_eqb m' m = false -> sget (sdel st m) k = Some m'.
+Proof. exact sdel_keeps_others. Qed.
+Theorem C14_delete_invents_nothing : forall st m k, sget st k = None -> sget (sdel st m) k = None.
+Proof. exact sdel_absent. Qed.
